@@ -513,7 +513,8 @@ type concResult struct {
 }
 
 // concRunner runs the terminal (its name marks the goroutine for the scanner).
-func concRunner(f func() error, done chan<- concResult) {
+func concRunner(f func() error, started chan<- struct{}, done chan<- concResult) {
+	close(started)
 	var res concResult
 	func() {
 		defer func() {
@@ -723,7 +724,9 @@ func concRunOnce(cc *concCase) concObs {
 	r.ctx, r.cancel = context.WithCancel(root)
 	term := r.build()
 	done := make(chan concResult, 1)
-	go concRunner(term, done)
+	started := make(chan struct{})
+	go concRunner(term, started, done)
+	<-started
 
 	var obs concObs
 	var result *concResult
@@ -747,6 +750,7 @@ func concRunOnce(cc *concCase) concObs {
 		}
 		if cc.cancel == step && !cancelled {
 			cancelled = true
+			r.log.add("x")
 			r.cancel()
 			obs.trace = append(obs.trace, "x")
 			step++
@@ -803,6 +807,7 @@ func concRunOnce(cc *concCase) concObs {
 			if cc.cancel > step && !cancelled {
 				// nothing else to do: deliver the scripted cancel now
 				cancelled = true
+				r.log.add("x")
 				r.cancel()
 				obs.trace = append(obs.trace, "x")
 				step = cc.cancel + 1
@@ -823,10 +828,13 @@ func concRunOnce(cc *concCase) concObs {
 		obs.trace = append(obs.trace, tok)
 		switch a.kind {
 		case "e":
+			r.log.add(fmt.Sprintf("e%d", a.id))
 			r.src.gate.release(a.id, 0)
 		case "d":
+			r.log.add("d")
 			r.cgate.release(a.id, 0)
 		case "m":
+			r.log.add(fmt.Sprintf("m%d", a.id))
 			r.mgate.release(a.id, 0)
 		}
 		step++
@@ -898,7 +906,9 @@ func execConc(prop string) func(string) string {
 		if err != nil {
 			return "bad-case " + err.Error()
 		}
-		if cc.child && os.Getenv("VERIF_CONC_CHILD") == "" {
+		// outside a child process (corpus / replay files) every case runs in a child of its own: a crash of the
+		// code under test (a panic on a library goroutine) is then an observation, not the end of the run
+		if os.Getenv("VERIF_CONC_CHILD") == "" && os.Getenv("VERIF_CONC_INPROC") == "" {
 			return concChild(prop, caseText)
 		}
 		if cc.trials > 1 {
@@ -942,4 +952,85 @@ func concChild(prop, caseText string) string {
 		return "res=crash"
 	}
 	return "res=child-no-output"
+}
+
+// ---------------------------------------------------------------------------------------------------------------
+// crash-proof generation: the generated cases of a run are executed in ONE re-exec'd child process; only if that
+// child dies (a mutation that makes a library goroutine panic kills the process) every case is re-run in a child of
+// its own, so that the crashing case is reported as an observation (`res=crash`) with its case line.
+
+type concGenCase struct {
+	nontrivial bool
+	text       string
+}
+
+func concParsePairs(out string) map[string]string {
+	res := map[string]string{}
+	var cur string
+	for _, line := range strings.Split(out, "\n") {
+		if strings.HasPrefix(line, "case ") {
+			rest := strings.TrimPrefix(line, "case ")
+			if len(rest) > 2 {
+				cur = rest[2:]
+			}
+		} else if strings.HasPrefix(line, "obs ") && cur != "" {
+			res[cur] = strings.TrimPrefix(line, "obs ")
+			cur = ""
+		}
+	}
+	return res
+}
+
+func concRunChild(prop string, texts []string, timeout time.Duration) (map[string]string, error) {
+	f, err := os.CreateTemp("", "conc-batch-*.case")
+	if err != nil {
+		return nil, err
+	}
+	defer os.Remove(f.Name())
+	for _, t := range texts {
+		fmt.Fprintf(f, "case T %s\n", t)
+	}
+	f.Close()
+	ctx, cancel := context.WithTimeout(context.Background(), timeout)
+	defer cancel()
+	cmd := exec.CommandContext(ctx, os.Args[0], "-prop", prop, "-replay", f.Name())
+	cmd.Env = append(os.Environ(), "VERIF_CONC_CHILD=1")
+	outb, err := cmd.Output()
+	return concParsePairs(string(outb)), err
+}
+
+func concEmitAll(c *Ctx, prop string, cases []concGenCase) {
+	if os.Getenv("VERIF_CONC_CHILD") != "" || os.Getenv("VERIF_CONC_INPROC") != "" {
+		for _, gc := range cases {
+			c.Case(gc.nontrivial, gc.text)
+		}
+		return
+	}
+	texts := make([]string, len(cases))
+	for i, gc := range cases {
+		texts[i] = gc.text
+	}
+	res, err := concRunChild(prop, texts, 40*time.Minute)
+	if err == nil && len(res) > 0 {
+		for _, gc := range cases {
+			obs, ok := res[gc.text]
+			if !ok {
+				obs = "res=child-no-output"
+			}
+			c.Raw(gc.nontrivial, gc.text, obs)
+		}
+		return
+	}
+	// the batch died: isolate
+	for _, gc := range cases {
+		r1, err1 := concRunChild(prop, []string{gc.text}, 60*time.Second)
+		obs, ok := r1[gc.text]
+		if !ok {
+			obs = "res=crash"
+			if err1 == nil {
+				obs = "res=child-no-output"
+			}
+		}
+		c.Raw(gc.nontrivial, gc.text, obs)
+	}
 }
